@@ -129,14 +129,15 @@ Proof. exact ignored_init_request_leaves_nothing. Qed.
 Print Assumptions C16E_ignored_init_request_leaves_nothing.
 
 (** likewise an initiator IkeSa created for an ACQUIRE never stays in the table in ST_INITIAL (/repo fix f21): when no
-    table entry matches the address pair, a configuration exists, and the created IkeSa is still INITIAL after
+    usable table entry matches the address pair, a configuration exists, and the created IkeSa is still INITIAL after
     process_trigger (unknown policy index: nothing was started), the table is the old table again, no kernel
     operation was issued, and what is sent is whatever process_trigger returned *)
 Theorem C16E_unstarted_acquire_leaves_nothing :
   forall E (ep : endpoint E) my peer tsi tsr index c ep0 cid (s0 : esa E),
   (forall x, In x (map fst (table E ep)) -> (x < next_cid E ep)%nat) ->
   find (fun x : nat * esa E => Z.eqb (my_addr (co (inner (hdl_iface E) (snd x)))) my
-                               && Z.eqb (peer_addr (co (inner (hdl_iface E) (snd x)))) peer) (table E ep) = None ->
+                               && Z.eqb (peer_addr (co (inner (hdl_iface E) (snd x)))) peer
+                               && acquire_usable (state (hdl_iface E) (snd x))) (table E ep) = None ->
   find_conf E ep my peer = Some c ->
   create E ep true (repeat 0%N 8) c my peer = Some (ep0, cid, s0) ->
   let r := process_trigger (hdl_iface E) (enter E ep0 s0) (ep_now E ep0) (E_acquire tsi tsr index) in
